@@ -13,7 +13,8 @@ use rustpython_parser::text_size::{TextRange, TextSize};
 struct Check<'a> {
     src: &'a str,
     k: u32,
-    open: Vec<TextRange>,
+    open: Vec<(TextRange, bool)>,
+    next_is_decorated: bool,
     in_fstring: u32,
     crlf: bool,
 }
@@ -36,15 +37,30 @@ impl<'a> Fold<TextRange> for Check<'a> {
         if !self.listed() {
             assert!(lo <= a && a <= b && b <= hi, "C02 range {:?} outside the input [{}, {}] of {:?}", user, lo, hi, self.src);
             assert!(self.src.is_char_boundary((a - lo) as usize) && self.src.is_char_boundary((b - lo) as usize), "C02 range {:?} not on character boundaries: {:?}", user, self.src);
-            if let Some(p) = self.open.last() {
-                assert!(p.contains_range(*user), "C02 node {:?} not inside its parent {:?}: {:?}", user, p, self.src);
+            if let Some((p, decorated)) = self.open.last() {
+                // (decorators come before the `def` / `class` keyword, where the statement's range starts - as in the reference)
+                let decorator = *decorated && user.end() <= p.start();
+                assert!(decorator || p.contains_range(*user), "C02 node {:?} not inside its parent {:?}: {:?}", user, p, self.src);
             }
         }
-        self.open.push(*user);
+        let d = std::mem::take(&mut self.next_is_decorated);
+        self.open.push((*user, d));
     }
     fn map_user(&mut self, user: TextRange, _c: ()) -> Result<TextRange, Self::Error> {
         self.open.pop();
         Ok(user)
+    }
+    fn fold_stmt_function_def(&mut self, node: ast::StmtFunctionDef) -> Result<ast::StmtFunctionDef, Self::Error> {
+        self.next_is_decorated = true;
+        ast::fold::fold_stmt_function_def(self, node)
+    }
+    fn fold_stmt_async_function_def(&mut self, node: ast::StmtAsyncFunctionDef) -> Result<ast::StmtAsyncFunctionDef, Self::Error> {
+        self.next_is_decorated = true;
+        ast::fold::fold_stmt_async_function_def(self, node)
+    }
+    fn fold_stmt_class_def(&mut self, node: ast::StmtClassDef) -> Result<ast::StmtClassDef, Self::Error> {
+        self.next_is_decorated = true;
+        ast::fold::fold_stmt_class_def(self, node)
     }
     fn fold_expr_joined_str(&mut self, node: ast::ExprJoinedStr) -> Result<ast::ExprJoinedStr, Self::Error> {
         self.in_fstring += 1;
@@ -71,6 +87,6 @@ impl<'a> Fold<TextRange> for Check<'a> {
 fuzz_target!(|data: &[u8]| {
     let Some(inp) = common::decode(data) else { return };
     let Ok(m) = parse_starts_at(&inp.text, inp.mode, "<fuzz>", TextSize::from(inp.offset)) else { return };
-    let mut c = Check { src: &inp.text, k: inp.offset, open: Vec::new(), in_fstring: 0, crlf: inp.text.contains("\r\n") };
+    let mut c = Check { src: &inp.text, k: inp.offset, open: Vec::new(), next_is_decorated: false, in_fstring: 0, crlf: inp.text.contains("\r\n") };
     let _ = c.fold_mod(m).unwrap();
 });
